@@ -80,7 +80,12 @@ func RebalanceWeight(clusters []*WeightCluster, initialWeight int) {
 			}
 			cl.Weight = propWeight
 		} else {
-			cl.Weight = int(weight)
+			propWeight := int(weight)
+			if propWeight == 0 && cl.Weight > 0 && cl.Length > 0 {
+				// float rounding: the lowest weight is initialWeight, which is at least 1
+				propWeight = 1
+			}
+			cl.Weight = propWeight
 		}
 	}
 }
